@@ -821,3 +821,187 @@ Definition run_C02_seqgff (ids : list str) (x : list feat) : val :=
           end
       end
   end.
+
+(* ================================================================== TSV/CSV at the text level (round 7)
+   FeatureList.tolists / topandas (fts.py:573-629) with ANY list of column names, DataFrame.to_csv / pandas.read_csv on the
+   cell level (header line, one line per feature, cells joined by the separator; no quoting: the domain keeps separator, quote
+   and line breaks out of the cells), FeatureList.frompandas (fts.py:423-455) and the wrappers of xsv.py:82-96 *)
+Definition n_start : str := bs "start"%bs.
+Definition n_stop : str := bs "stop"%bs.
+Definition n_len : str := bs "len"%bs.
+Definition n_strand : str := bs "strand"%bs.
+Definition n_defect : str := bs "defect"%bs.
+Definition nhas (n : str) (names : list str) : bool := existsb (str_eqb n) names.
+(* str.split() without argument: the pieces between runs of white space, no empty pieces (fts.py:593, 625) *)
+Fixpoint py_split (s : str) : list str :=
+  match s with
+  | [] => []
+  | c :: r =>
+      if is_ws c then py_split r
+      else match r with
+           | [] => [[c]]
+           | d :: _ => if is_ws d then [c] :: py_split r
+                       else match py_split r with p :: ps => (c :: p) :: ps | [] => [[c]] end
+           end
+  end.
+(* keys='type start stop' or keys=('type', 'start', 'stop') *)
+Inductive keyarg := KStr (s : str) | KList (l : list str).
+Definition keys_of (ka : keyarg) : list str := match ka with KStr s => py_split s | KList l => l end.
+Definition feat_strand_m (f : feat) : byte := match flocs f with l :: _ => lstrand l | [] => "?"%byte end.
+(* one cell of tolists as to_csv prints it, fts.py:595-603: strand, defect (always NONE = 0 here), start, stop, len, else
+   meta.get(name) (None and values that are no str print as the empty cell; the latter are outside the domain) *)
+Definition ncell (n : str) (f : feat) : str :=
+  let rg := loc_range (flocs f) in
+  if str_eqb n n_strand then [feat_strand_m f]
+  else if str_eqb n n_defect then bs "0"%bs
+  else if str_eqb n n_start then dec_of_Z (fst rg)
+  else if str_eqb n n_stop then dec_of_Z (snd rg)
+  else if str_eqb n n_len then dec_of_Z (snd rg - fst rg)
+  else match aget n (fmeta f) with Some (AS s) => s | _ => [] end.
+Definition nrow (names : list str) (f : feat) : list str := map (fun n => ncell n f) names.
+Definition xsv_line (sep : byte) (cells : list str) : str := join [sep] cells ++ nl.
+(* _write_fts_xsv: fts.topandas(keys).to_csv(f, sep=sep, index=False) *)
+Definition write_xsv (sep : byte) (names : list str) (x : list feat) : str :=
+  xsv_line sep names ++ concat (map (fun f => xsv_line sep (nrow names f)) x).
+(* pandas.read_csv on the cell level: blank lines are skipped, the first line left holds the column names; None = EmptyDataError *)
+Definition nonblank (l : str) : bool := negb (Nat.eqb (length l) 0).
+Definition xsv_rows (sep : byte) (t : str) : option (list str * list (list str)) :=
+  match filter nonblank (file_lines t) with
+  | [] => None
+  | h :: rows => Some (split_on sep h, map (split_on sep) rows)
+  end.
+(* df[name] of one record: the first column of that name (a repeated name is renamed name.1 by read_csv) *)
+Fixpoint ncell_of (n : str) (names : list str) (row : list str) : option str :=
+  match names, row with
+  | n' :: names', c :: row' => if str_eqb n n' then Some c else ncell_of n names' row'
+  | _, _ => None
+  end.
+Definition getZ (n : str) (names : list str) (row : list str) : option Z :=
+  match ncell_of n names row with Some s => Z_of_dec s | None => None end.
+(* result of frompandas on one record; XBad = a start/stop/len cell that is no integer literal (outside the model) *)
+Inductive xres := XRec (ty : option str) (a b : Z) (sd : byte) | XKey | XVal | XBad.
+Definition obind2 (f : Z -> Z -> Z) (a b : option Z) : option Z :=
+  match a, b with Some x, Some y => Some (f x y) | _, _ => None end.
+(* the (start, stop) pair frompandas hands to Location, fts.py:440-449: start and stop when both columns exist (a len column is
+   deleted unread), else start + len / stop - len, else KeyError (None) *)
+Definition xrange (names : list str) (row : list str) : option (option Z * option Z) :=
+  let st := getZ n_start names row in let sp := getZ n_stop names row in let ln := getZ n_len names row in
+  if nhas n_start names && nhas n_stop names then Some (st, sp)
+  else if nhas n_len names && nhas n_start names then Some (st, obind2 Z.add st ln)
+  else if nhas n_len names && nhas n_stop names then Some (obind2 Z.sub sp ln, sp)
+  else None.
+Definition cell_opt (c : option str) : option str := match c with Some [] => None | o => o end.
+(* the type of the record, fts.py:434-439: the type column; without one the column named ftype, else ftype itself *)
+Definition xtype (ft : option str) (names : list str) (row : list str) : option str :=
+  if nhas k_type names then cell_opt (ncell_of k_type names row)
+  else match ft with
+       | None => None
+       | Some f => if nhas f names then cell_opt (ncell_of f names row) else Some f
+       end.
+Definition xrecord_s (ft : option str) (names : list str) (row : list str) : xres :=
+  match xrange names row with
+  | None => XKey
+  | Some (Some a, Some b) =>
+      if Z.ltb a b then
+        match (if nhas n_strand names then ncell_of n_strand names row else Some [("?"%byte)]) with
+        | Some [c] => if strand_ok c then XRec (xtype ft names row) a b c else XVal
+        | _ => XVal
+        end
+      else XVal
+  | Some _ => XBad
+  end.
+(* the loop over the records stops at the first exception *)
+Fixpoint xcollect (rs : list xres) : val + list (option str * Z * Z * byte) :=
+  match rs with
+  | [] => inr []
+  | XRec ty a b sd :: r => match xcollect r with inr l => inr ((ty, a, b, sd) :: l) | inl e => inl e end
+  | XKey :: _ => inl (VE (bs "KeyError"%bs))
+  | XVal :: _ => inl (VE e_value)
+  | XBad :: _ => inl (VE (bs "BadCell"%bs))
+  end.
+(* _read_fts_xsv: frompandas(read_csv(f, sep=sep), ftype) *)
+Definition read_xsv (sep : byte) (ft : option str) (t : str) : val + list (option str * Z * Z * byte) :=
+  match xsv_rows sep t with
+  | None => inl (VE (bs "EmptyDataError"%bs))
+  | Some (names, rows) => xcollect (map (xrecord_s ft names) rows)
+  end.
+(* a selection of columns from which frompandas can build locations *)
+Definition sel_ok (names : list str) : bool :=
+  (nhas n_start names && nhas n_stop names) || (nhas n_len names && (nhas n_start names || nhas n_stop names)).
+(* what the property promises for the record of feature f *)
+Definition xspec_ty (ft : option str) (names : list str) (f : feat) : option str :=
+  if nhas k_type names then cell_opt (Some (ncell k_type f))
+  else match ft with
+       | None => None
+       | Some c => if nhas c names then cell_opt (Some (ncell c f)) else Some c
+       end.
+Definition xspec (ft : option str) (names : list str) (f : feat) : option str * Z * Z * byte :=
+  (xspec_ty ft names f, fst (loc_range (flocs f)), snd (loc_range (flocs f)),
+   if nhas n_strand names then feat_strand_m f else "?"%byte).
+
+(* domain of the text level: what pandas neither quotes nor re-types *)
+Definition pandas_words : list str :=
+  map bs ["na"; "n/a"; "nan"; "null"; "none"; "true"; "false"; "inf"; "infinity"; "-inf"; "nat"; "<na>"; "#n/a"; "#na"]%bs.
+Definition sep_ok (sep : byte) : bool :=
+  negb (is_digit sep) && negb (has sep (bs "-+.?"%bs)) && negb (byte_eqb sep x0a) && negb (byte_eqb sep x0d) && negb (byte_eqb sep x22).
+Definition clean (sep : byte) (s : str) : bool :=
+  negb (has sep s) && negb (has x0a s) && negb (has x0d s) && negb (has x22 s) && negb (Nat.eqb (length s) 0).
+(* a cell pandas reads back as the same text: starts with a letter or '_', no NA / boolean word *)
+Definition texty (s : str) : bool :=
+  match s with
+  | c :: _ => negb (is_digit c) && negb (has c (bs "-+.#<"%bs)) && negb (is_ws c)
+  | [] => false
+  end && negb (existsb (str_eqb (lower s)) pandas_words) && all_ascii s
+  && match rev s with c :: _ => negb (is_ws c) | [] => false end.
+Definition is_num_name (n : str) : bool := str_eqb n n_start || str_eqb n n_stop || str_eqb n n_len.
+Definition is_loc_name (n : str) : bool := is_num_name n || str_eqb n n_strand || str_eqb n n_defect.
+Definition names_ok (sep : byte) (names : list str) : bool := forallb (fun n => clean sep n && texty n) names.
+(* the text cells of a feature (type and other metadata columns) *)
+Definition feat_clean (sep : byte) (names : list str) (f : feat) : bool :=
+  negb (Nat.eqb (length (flocs f)) 0)
+  && forallb (fun l => Z.ltb (lstart l) (lstop l)) (flocs f)
+  && strand_ok (feat_strand_m f)
+  && forallb (fun n => is_loc_name n || clean sep (ncell n f)) names.
+Definition feat_texty (names : list str) (f : feat) : bool :=
+  forallb (fun n => is_loc_name n || (texty (ncell n f) && match aget n (fmeta f) with Some (AS _) => true | _ => false end)) names.
+Definition v_xrecs (l : list (option str * Z * Z * byte)) : val :=
+  VL (map (fun r => match r with (ty, a, b, sd) => VL [VOpt VS ty; VI a; VI b; VS [sd]] end) l).
+Definition v_xres (r : val + list (option str * Z * Z * byte)) : val := match r with inl e => e | inr l => v_xrecs l end.
+Definition ft_ok (ft : option str) (names : list str) : bool :=
+  match ft with
+  | None => true
+  | Some c => nhas k_type names || (if nhas c names then negb (is_num_name c) && negb (str_eqb c n_defect) else texty c)
+  end.
+(* op 7: FeatureList -> table text -> records.  The domain flag: separator and cells inside the unquoted, text-typed part of
+   pandas; the table holding nothing but len columns is left out (pandas drops the rows of a frame without columns, so the real
+   code returns no features where the model says KeyError) *)
+Definition run_C02_xsvw (sep : byte) (ft : option str) (ka : keyarg) (x : list feat) : val :=
+  match map_opt mk_feature x with
+  | None => VL [VB false; VB false; VE e_value]
+  | Some x' =>
+      let names := keys_of ka in
+      let t := write_xsv sep names x' in
+      let dom := sep_ok sep && names_ok sep names && negb (Nat.eqb (length names) 0)
+                 && forallb (feat_clean sep names) x' && forallb (feat_texty names) x'
+                 && ft_ok ft names
+                 && negb (forallb (str_eqb n_len) names && match ft with None => true | Some _ => false end) in
+      VL [VB dom; VB dom; VL [VS t; v_xres (read_xsv sep ft t)]]
+  end.
+(* op 8: a table text from elsewhere -> records *)
+Definition canon_int (s : str) : bool := match Z_of_dec s with Some z => str_eqb (dec_of_Z z) s | None => false end.
+Definition row_dom (sep : byte) (ft : option str) (names : list str) (row : list str) : bool :=
+  Nat.eqb (length row) (length names)
+  && forallb (fun n => match ncell_of n names row with
+                       | Some c => if is_num_name n then canon_int c
+                                   else if str_eqb n n_strand then Nat.eqb (length c) 1
+                                   else if str_eqb n n_defect then str_eqb c (bs "0"%bs)
+                                   else clean sep c && texty c
+                       | None => false end) names.
+Definition run_C02_xsvr (sep : byte) (ft : option str) (t : str) : val :=
+  let dom := all_ascii t && negb (has x0d t) && negb (has x22 t) && sep_ok sep
+             && match xsv_rows sep t with
+                | Some (names, rows) => names_ok sep names && forallb (row_dom sep ft names) rows && ft_ok ft names
+                                        && negb (forallb (str_eqb n_len) names && match ft with None => true | Some _ => false end)
+                | None => true
+                end in
+  VL [VB dom; VB dom; v_xres (read_xsv sep ft t)].
